@@ -228,6 +228,45 @@ def explorations(thorough, seed):
     return out
 
 
+def conformance(run, thorough):
+    """simdist vs real gloo processes on the same programs (DESIGN 2.7).
+    Runs in the main process (pool workers cannot fork children)."""
+    from vf import gloo_conf as GC
+
+    sets = [(2, 'COMM_OPT', 'eigen', True, 25.0, False),
+            (2, 'MEM_OPT', 'inverse', False, 0.0, True),
+            (4, 'HYBRID_OPT', 'eigen', True, 25.0, False),
+            (4, 'HYBRID_OPT', 'inverse', False, 0.0, True),
+            (4, 'MEM_OPT', 'eigen', False, 1e-6, False),
+            (3, 1 / 3, 'eigen', True, 2e-4, True)]
+    if thorough:
+        sets += [(w, f, m, p, c, s) for w, f in
+                 ((2, 'COMM_OPT'), (2, 'MEM_OPT'), (4, 'COMM_OPT'),
+                  (4, 'HYBRID_OPT'), (4, 'MEM_OPT'), (3, 1.0))
+                 for (m, p) in (('eigen', True), ('eigen', False),
+                                ('inverse', False))
+                 for c, s in ((0.0, False), (25.0, True))]
+    for world, frac, m, pre, cap, sym in sets:
+        kk = base_kfac(m, pre)
+        kk.update(grad_worker_fraction=frac, allreduce_bucket_cap_mb=cap,
+                  symmetry_aware=sym)
+        cfg = {'model': 'mlp3', 'dtype': 'f32', 'batch': 2, 'world': world,
+               'seed': run.seed, 'kfac': kk, 'history': [['train']] * 2}
+        try:
+            dis = GC.compare(world, K.make_program(cfg),
+                             GC.cmp_kfac_records)
+        except Exception as e:  # noqa
+            run.violation('conformance-harness', f'{name_of(cfg)}: gloo run '
+                          f'failed: {e}')
+            continue
+        run.count('traces_validated_against_impl', world)
+        run.count('gloo_collectives_compared', GC.LAST['collectives'])
+        if dis:
+            run.violation(f'conformance:w{world}',
+                          f'{name_of(cfg)}: simdist and real gloo disagree: '
+                          f'{dis[0]}', {'cfg': cfg, 'mode': 'conformance'})
+
+
 def any_case(part, item):
     kind, payload = item
     {'fixed': fixed_case, 'accum': accum_case,
@@ -261,6 +300,7 @@ def main(run: core.Run):
         return c['world'] ** 2 * len(c['history'])
 
     core.pmap(run, any_case, items, weight=weight)
+    conformance(run, thorough)
     run.c['evaluations'] = run.c.get('executions', 0)
     run.c['distinct_nontrivial'] = len(run.distinct.get('nontrivial', ()))
     run.notes['configurations_fixed_schedules'] = len(cfgs)
